@@ -261,6 +261,8 @@ struct Ctx<'a> {
     cli_seen: usize,
     /// CLI runs made for the current schema group (capped so that the budget is spread over the whole run)
     cli_group: usize,
+    /// `--replay`: the CLI leg is run whatever the sampling says
+    replaying: bool,
 }
 
 type Best = BTreeMap<(String, String), (usize, String, J, u64)>;
@@ -633,7 +635,7 @@ impl<'a> Ctx<'a> {
             // faults that only the importing operation can expose come first; of the others every fourth project
             self.cli_seen += 1;
             let priority = matches!(l.rule.as_str(), "5.8.3" | "5.8.5" | "5.5.2.1");
-            if (!priority && self.cli_seen % 4 != 0) || self.cli_group >= 3 {
+            if !self.replaying && ((!priority && self.cli_seen % 4 != 0) || self.cli_group >= 3) {
                 return;
             }
             self.cli_group += 1;
@@ -965,7 +967,7 @@ pub fn run(prop: &str) {
             }
         }
     }
-    let mut ctx = Ctx { prop: prop.to_string(), rep: &mut rep, drv: &mut drv, kinds, best: BTreeMap::new(), templates: BTreeMap::new(), cli: args.extra.get("cli").cloned().unwrap_or_default(), scratch: args.scratch.clone(), cli_budget: 0, cli_seen: 0, cli_group: 0 };
+    let mut ctx = Ctx { prop: prop.to_string(), rep: &mut rep, drv: &mut drv, kinds, best: BTreeMap::new(), templates: BTreeMap::new(), cli: args.extra.get("cli").cloned().unwrap_or_default(), scratch: args.scratch.clone(), cli_budget: 0, cli_seen: 0, cli_group: 0, replaying: args.replay.is_some() };
     // the CLI leg of the import stream: a modest number of process spawns
     if !args.scratch.is_empty() && std::path::Path::new(&ctx.cli).is_file() {
         ctx.cli_budget = if prop == "C03" { args.budget(100, 1000) } else { args.budget(50, 500) };
